@@ -258,6 +258,21 @@ def gen_cases(ctx, extra_bias=None):
         cases.append(sysc(ci("v1unstake", []), amt=10000 * AERGO, bno=300000))
         cases.append(sysc(ci("v1unstake", []), amt=13000 * AERGO, snd=1, bno=300001))
         cases.append(sysc(ci("v1voteBP", ps[:1]), bno=400000))
+    # the consensus kind (dpos / raft / sbp) as a dimension of admission and execution: changeCluster is refused unless
+    # raft; the dpos and sbp executors have a nil cluster handle
+    cc_add = {"command": "add", "name": "n", "address": "/ip4/1.2.3.4/tcp/7846", "peerid": "16Uiu2HAmPZE7gT1hF2bjpg1UVH65xyNUbBVRf3mBFBJpz3tgLGGt"}
+    for cons in ("dpos", "raft", "sbp"):
+        for ccarg in (cc_add, {"command": "remove", "id": "ff"}, {"command": "add"}, "x"):
+            gi = newg()
+            ent = lambda c, **kw: mk(gi, "aergo.enterprise", c, cons=cons, **kw)
+            cases.append(ent(ci("appendAdmin", ["@A0"], "name", "args")))
+            cases.append(ent(ci("changeCluster", [ccarg], "name", "args")))
+            cases.append(ent(ci("changeCluster", [ccarg], "name", "args"), snd=1))
+            cases.append(ent(ci("setConf", ["rpcpermissions", "dGVzdA==:RW"], "name", "args")))
+        gi = newg()
+        cases.append(mk(gi, "aergo.system", ci("v1stake", []), amt=10000 * AERGO, cons=cons))
+        cases.append(mk(gi, "aergo.name", ci("v1createName", ["abcdefghijkl"]), amt=AERGO, cons=cons))
+        cases.append(mk(gi, "@A1", "", amt=5, ty=TRANSFER, cons=cons))
     # governance HISTORIES of one account: a voted value (or candidate) loses its last supporter by a full unstake and is
     # voted again after staking again -- the previous vote record then names a tally entry whose amount went to zero.
     # Deterministic shapes per parameter / for BP votes, then random histories over {stake, full / partial unstake,
@@ -567,7 +582,8 @@ def coq_case(c, o):
         B(size_ok), B(not c.get("badhash")), B(amt <= MAXAER), B(price_ok), len(acct), len(rcpt),
         TYNAME.get(c["ty"], "TOther"), 1 if o["payload_len"] else 0, B(amt == 0), cs(rcpt.hex()),
         cinfo, vf.coq_Z(amt), cs(acct.hex()))
-    env = "(mkEnv %s %s %s)" % (B(c.get("pub", False)), B(not c.get("raft", False)), B(c.get("raft", False)))
+    cons = c.get("cons") or ("raft" if c.get("raft") else "dpos")
+    env = "(mkEnv %s %s %s)" % (B(c.get("pub", False)), B(cons == "dpos"), B(cons == "raft"))
     sysv = "(mkSys %d %d %s %s %s [%s] %s)" % (
         c["fork"], v["block_no"], vf.coq_Z(int(v["balance"] or 0)), cs(v["staking"]), cs(v["vote_bp"]),
         ";".join("(%s,%s)" % (cstr(k), cs(r)) for k, r in sorted(v["votes_dao"].items())), vf.coq_Z(int(v["staking_min"])))
@@ -663,7 +679,7 @@ def pool_differential(ctx, poolbin, cases, obs):
         c0 = mkfn(0)[0]
         setups[(c0["rcpt"], c0["p"], c0["amt"])] = kind
     plain = lambda c: (c["ty"] == GOV and c["fork"] == 3 and c["snd"] in (0, 1, 2, 3) and
-                       not any(c.get(k) for k in ("raft", "pub", "acctlen", "rcptraw", "badhash", "amtraw", "priceraw", "payfill", "bno", "commit")))
+                       not any(c.get(k) for k in ("raft", "cons", "pub", "acctlen", "rcptraw", "badhash", "amtraw", "priceraw", "payfill", "bno", "commit")))
     pcs, idx = [], []
     groups = {}
     for i, c in enumerate(cases):
